@@ -170,6 +170,12 @@ func genCopyCase(r *Rng) []Op {
 	}
 	w := g.win()
 	cn := r.Intn(2)
+	if g.lay.K() >= 2 && r.Chance(1, 4) {
+		// staged: one coarser archive first, then all of them over the same window
+		f, u := g.window()
+		w = fmt.Sprintf("archive=-1 from=%d until=%d", f, u)
+		ops = append(ops, Op{fmt.Sprintf("cmd copy pairs=src/a.wsp>dst/a.wsp %s copynan=%d archive=%d from=%d until=%d", g.opts(), cn, 1+r.Intn(g.lay.K()-1), f, u), true})
+	}
 	line := fmt.Sprintf("cmd copy pairs=src/a.wsp>dst/a.wsp %s copynan=%d %s", g.opts(), cn, w)
 	ops = append(ops, Op{line, true})
 	ops = g.fdisks(ops, true, "dst/a.wsp", "src/a.wsp")
@@ -190,7 +196,16 @@ func genCopyGlobCase(r *Rng) []Op {
 			present = append(present, n)
 		}
 		if r.Chance(1, 3) {
-			ops = g.writeFile(ops, "dst/"+n, g.lay, r.Intn(2))
+			lay := g.lay
+			if r.Chance(1, 5) {
+				// one destination with another layout: a hard error for that file, whatever the
+				// files before it in glob order showed
+				lay = genLayout(r, false)
+				if r.Bool() {
+					lay = nearLayout(r, g.lay)
+				}
+			}
+			ops = g.writeFile(ops, "dst/"+n, lay, r.Intn(2))
 		}
 	}
 	pat := []string{"*.wsp", "sub/*.wsp", "*.*", "?.wsp", "*/*.wsp", "[ab].wsp", "nomatch*"}[r.Intn(7)]
@@ -210,6 +225,34 @@ func genCopyGlobCase(r *Rng) []Op {
 		ops = g.fdisks(ops, true, "dst/"+n)
 	}
 	ops = append(ops, Op{fmt.Sprintf("cmd diff pairs=%s glob=%s %s", ps, pat, w), true})
+	return ops
+}
+
+// genDiffGlobOrderCase (C09): with a glob every matched file is compared in glob order; a
+// difference (or a missing destination) in an earlier file must not mask a hard error in a
+// later one, nor the reverse
+func genDiffGlobOrderCase(r *Rng) []Op {
+	g := newCmdGen(r, "C09")
+	ops := []Op{{"reset", false}}
+	names := []string{"a.wsp", "b.wsp", "c.wsp"}
+	kinds := []int{r.Intn(4), r.Intn(4), r.Intn(4)} // 0 equal-ish, 1 differs, 2 dest missing, 3 other layout
+	kinds[r.Intn(3)] = 3
+	for i, n := range names {
+		ops = g.writeFile(ops, "src/"+n, g.lay, 1+r.Intn(2))
+		switch kinds[i] {
+		case 2:
+		case 3:
+			lay := genLayout(r, false)
+			if r.Bool() {
+				lay = nearLayout(r, g.lay)
+			}
+			ops = g.writeFile(ops, "dst/"+n, lay, r.Intn(2))
+		default:
+			ops = g.writeFile(ops, "dst/"+n, g.lay, 1+r.Intn(2))
+		}
+	}
+	pat := []string{"*.wsp", "[abc].wsp", "?.wsp"}[r.Intn(3)]
+	ops = append(ops, Op{fmt.Sprintf("cmd diff pairs=src/a.wsp>dst/a.wsp,src/b.wsp>dst/b.wsp,src/c.wsp>dst/c.wsp glob=%s %s", pat, g.winAll()), true})
 	return ops
 }
 
@@ -320,6 +363,21 @@ func genSumCase(r *Rng, prop string) []Op {
 		return ops
 	}
 	ops = append(ops, Op{fmt.Sprintf("cmd sumdiff %s dest=sum.wsp %s", common, w), true})
+	if g.lay.K() >= 2 && r.Chance(1, 2) {
+		// staged: first one coarser archive alone (its slots then equal the sum while the finer
+		// archives do not), then everything — the finer writes propagate into slots that
+		// already matched
+		f, u := g.window()
+		if r.Bool() {
+			f, u = 0, 0
+		}
+		st := g.lay.K() - 1
+		if r.Chance(1, 3) {
+			st = 1 + r.Intn(g.lay.K()-1)
+		}
+		w = fmt.Sprintf("archive=-1 from=%d until=%d", f, u)
+		ops = append(ops, Op{fmt.Sprintf("cmd sumcopy %s dest=sum.wsp %s archive=%d from=%d until=%d", common, g.opts(), st, f, u), true})
+	}
 	ops = append(ops, Op{fmt.Sprintf("cmd sumcopy %s dest=sum.wsp %s %s", common, g.opts(), w), true})
 	for _, it := range items {
 		ops = g.fdisks(ops, true, "dst/"+strings.ReplaceAll(it, ".", "/")+"/sum.wsp")
@@ -328,11 +386,80 @@ func genSumCase(r *Rng, prop string) []Op {
 	return ops
 }
 
+// writeConsistent: a file written through the best-archive path only, so that every coarser
+// archive is the aggregate of the finer one
+func (g *CmdGen) writeConsistent(ops []Op, path string, batches int) []Op {
+	lg := g.libGen()
+	ops = append(ops, Op{"use " + path, false}, Op{fmt.Sprintf("create %s %d %08x", g.lay, g.agg, g.xff), false})
+	for b := 0; b < batches; b++ {
+		ops = append(ops, Op{fmt.Sprintf("updmany -1 %d %s", g.now, lg.genBatch()), false})
+	}
+	return append(ops, Op{"sync", false}, Op{"drop", false})
+}
+
+// genStagedCase (C08, C11): a layout of three or more archives and self-consistent sources;
+// the coarsest archives are brought over first, then everything.  The finer writes of the
+// second run propagate down the whole chain into slots that already held the right value,
+// and a destination equal to the source (or the sum) afterwards needs them re-examined.
+func genStagedCase(r *Rng, prop string) []Op {
+	g := newCmdGen(r, prop)
+	for g.lay.K() < 3 || g.lay.FileSize() > 60000 {
+		g.lay = genLayout(r, false)
+	}
+	g.xff = math.Float32bits([]float32{0, 0, 0.1, 0.5}[r.Intn(4)])
+	ops := []Op{{"reset", false}}
+	st := g.lay.K() - 1
+	if r.Chance(1, 3) {
+		st = 1 + r.Intn(g.lay.K()-1)
+	}
+	f, u := 0, 0
+	if r.Chance(1, 3) {
+		f, u = g.window()
+	}
+	if prop == "C08" {
+		ops = g.writeConsistent(ops, "src/a.wsp", 1+r.Intn(3))
+		if r.Bool() {
+			ops = g.writeConsistent(ops, "dst/a.wsp", r.Intn(2))
+		}
+		cn := r.Intn(2)
+		ops = append(ops, Op{fmt.Sprintf("cmd copy pairs=src/a.wsp>dst/a.wsp %s copynan=%d archive=%d from=%d until=%d", g.opts(), cn, st, f, u), true})
+		line := fmt.Sprintf("cmd copy pairs=src/a.wsp>dst/a.wsp %s copynan=%d archive=-1 from=%d until=%d", g.opts(), cn, f, u)
+		ops = append(ops, Op{line, true})
+		ops = g.fdisks(ops, true, "dst/a.wsp")
+		ops = append(ops, Op{fmt.Sprintf("cmd diff pairs=src/a.wsp>dst/a.wsp archive=-1 from=%d until=%d", f, u), true})
+		return ops
+	}
+	n := 2 + r.Intn(2)
+	var files []string
+	for i := 0; i < n; i++ {
+		p := fmt.Sprintf("src/i1/f%d.wsp", i)
+		ops = g.writeConsistent(ops, p, 1+r.Intn(2))
+		files = append(files, p)
+	}
+	common := fmt.Sprintf("items=%s>dst/i1/sum.wsp itempat=i1 srcpat=*.wsp", strings.Join(files, "+"))
+	ops = append(ops, Op{fmt.Sprintf("cmd sumcopy %s dest=sum.wsp %s archive=%d from=%d until=%d", common, g.opts(), st, f, u), true})
+	ops = append(ops, Op{fmt.Sprintf("cmd sumcopy %s dest=sum.wsp %s archive=-1 from=%d until=%d", common, g.opts(), f, u), true})
+	ops = g.fdisks(ops, true, "dst/i1/sum.wsp")
+	ops = append(ops, Op{fmt.Sprintf("cmd sumdiff %s dest=sum.wsp archive=-1 from=%d until=%d", common, f, u), true})
+	return ops
+}
+
 // genViewCase (C18)
 func genViewCase(r *Rng) []Op {
 	g := newCmdGen(r, "C18")
 	ops := []Op{{"reset", false}}
 	ops = g.writeFile(ops, "src/a.wsp", g.lay, 1+r.Intn(4))
+	if r.Chance(1, 4) {
+		// a file stamped after 2038 (timestamps with the top bit set) next to never-written
+		// slots: the raw dump, in slot order and sorted, over the whole timestamp range
+		save := g.now
+		g.now = 2147483648 + 1000 + r.Intn(2000000000)
+		ops = g.writeFile(ops, "src/late.wsp", g.lay, 1+r.Intn(3))
+		g.now = save
+		for _, srt := range []int{0, 1} {
+			ops = append(ops, Op{fmt.Sprintf("cmd viewraw src=src/late.wsp header=1 sort=%d archive=%d from=0 until=4294967295", srt, []int{-1, r.Intn(g.lay.K())}[r.Intn(2)]), true})
+		}
+	}
 	for i := 0; i < 3; i++ {
 		w := g.win()
 		ops = append(ops, Op{fmt.Sprintf("cmd view src=src/a.wsp header=%d %s", r.Intn(2), w), true})
@@ -384,6 +511,10 @@ func genRemoteCase(r *Rng) []Op {
 	ops = g.fdisks(ops, true, "dst/a.wsp")
 	// globbing through the server
 	pat := []string{"*.wsp", "it/*.wsp", "nomatch*"}[r.Intn(3)]
+	if r.Chance(1, 3) {
+		// a pattern whose literal part needs query escaping
+		pat = strings.TrimSuffix(strings.TrimPrefix(odd, "src/"), ".wsp") + "*"
+	}
 	var pairs []string
 	all := []string{"a.wsp", strings.TrimPrefix(odd, "src/"), "it/f0.wsp", "it/f1.wsp"}
 	sort.Strings(all)
